@@ -256,7 +256,7 @@ var properties = map[string]*Property{
 		}},
 		Rule: "one case = one seeded history of source events and fetch outcomes for one provider: http_endpoint (1-2 origins serving new/unchanged/invalid/empty/unsupported/404 content with Cache-Control, transport faults, processor rejections; 2-11 poll intervals on the fake clock), file_system (2-13 file operations incl. torn overwrites, truncation, removal, rename, chmod on a disk with coarse timestamps; events duplicated, coalesced, delayed past later operations, spurious), cloud_blob (prefix and single-object mode over an in-memory driver.Bucket with per-call error codes) and kubernetes (real client-go informer over an in-memory API server: watch closes, gaps with compaction and relist, tombstones, status-patch faults). Oracles: legality and exactly-once of the processor call sequence per source, 'active content is allowed by what the provider observed' after every step, and convergence to the latest content at quiescence. Non-trivial = history with at least one invalid/empty/removed/renamed source or connection fault; distinct = distinct traces.",
 		Real: []string{"file_system Provider.ruleSetsChanged / loadInitialRuleSet, its watchFiles loop (half of the provider-fs runs) and Start with the real fsnotify watcher on a temporary directory (provider-fs-start)", "http_endpoint provider incl. gocron scheduler, ruleSetEndpoint, httpcache, memory cache", "cloud_blob provider incl. gocron, ruleSetEndpoint and gocloud's portable blob layer", "kubernetes provider incl. the real client-go informer / reflector / FilteringResourceEventHandler", "rule set parser"},
-		Stub: []string{"rule set processor: recording model processor (legality + injected rejections); the real processor/repository is exercised by C06/C07", "fsnotify / inotify in provider-fs (events are fed to ruleSetsChanged directly or through the channels of a bare watcher value into the provider's own loop); provider-fs-start uses the kernel's inotify and judges the outcome within 3 s of wall-clock time", "HTTP origin (simnet)", "blob storage: in-memory driver.Bucket behind gocloud's portable layer", "Kubernetes API server and REST client: in-memory RuleSetRepository"},
+		Stub: []string{"rule set processor: recording model processor (legality + injected rejections); the real processor/repository is exercised by C06/C07", "fsnotify / inotify in provider-fs (events are fed to ruleSetsChanged directly or through the channels of a bare watcher value into the provider's own loop); provider-fs-start uses the kernel's inotify and judges the outcome within 10 s of wall-clock time", "HTTP origin (simnet)", "blob storage: in-memory driver.Bucket behind gocloud's portable layer", "Kubernetes API server and REST client: in-memory RuleSetRepository"},
 		Assumptions: []string{
 			"event model: inotify order is preserved (FIFO), the last event of a file's final state is never dropped, delays are bounded",
 			"while faults flow nothing is demanded about communication failures: both 'kept' and 'unloaded' stay possible; convergence is judged after faults stopped and every source was observed again",
